@@ -69,7 +69,9 @@ func arrayOf(b []byte) interface{} {
 }
 
 // tap forwards src -> dst and lets see() look at the bytes first (it may rewrite what is forwarded).
-func tap(src, dst net.Conn, see func([]byte) []byte, wg *sync.WaitGroup) {
+// seg > 0 re-segments: dst receives the bytes in pieces of at most seg bytes, so that one Read on the far side of the
+// pipe returns at most seg bytes (a TCP carrier may do that at any time).
+func tap(src, dst net.Conn, see func([]byte) []byte, wg *sync.WaitGroup, seg int) {
 	defer wg.Done()
 	buf := make([]byte, 64*1024)
 	for {
@@ -79,11 +81,16 @@ func tap(src, dst net.Conn, see func([]byte) []byte, wg *sync.WaitGroup) {
 			if see != nil {
 				out = see(append([]byte(nil), out...))
 			}
-			if len(out) > 0 {
-				if _, werr := dst.Write(out); werr != nil {
+			for len(out) > 0 {
+				piece := out
+				if seg > 0 && len(piece) > seg {
+					piece = piece[:seg]
+				}
+				if _, werr := dst.Write(piece); werr != nil {
 					src.Close()
 					return
 				}
+				out = out[len(piece):]
 			}
 		}
 		if err != nil {
@@ -263,8 +270,9 @@ func runMConn1(t *tctx) {
 		see = ft.feed
 	}
 	wg.Add(2)
-	go tap(s2, r1, see, &wg)
-	go tap(r1, s2, nil, &wg)
+	seg := cfgInt(t.tr, "seg", 0)
+	go tap(s2, r1, see, &wg, seg)
+	go tap(r1, s2, nil, &wg, seg)
 	var sconn, rconn net.Conn = s1, r2
 	if wrap != "plain" {
 		type res struct {
@@ -277,7 +285,11 @@ func runMConn1(t *tctx) {
 		rr.sc, rr.err = p2p.MakeSecretConnection(r2, keyB)
 		sr := <-ch
 		if sr.err != nil || rr.err != nil {
-			t.fail(-1, "mismatch", true, "Handshake:untouched-failed", fmt.Sprintf("handshake under the MConnections failed: %v / %v", sr.err, rr.err), nil, nil)
+			key := "Handshake:untouched-failed"
+			if seg > 0 {
+				key = "StreamIntegrity:fragmented-carrier"
+			}
+			t.fail(-1, "mismatch", true, key, fmt.Sprintf("handshake under the MConnections failed: %v / %v (carrier delivers at most %d bytes per Read; 0 = unlimited)", sr.err, rr.err, seg), nil, nil)
 			s1.Close()
 			r2.Close()
 			return
@@ -466,7 +478,11 @@ func runMConn1(t *tctx) {
 		}
 	default:
 		if e != nil {
-			t.fail(-1, "property", true, "NoSpuriousError", fmt.Sprintf("receiver reported %v although every accepted message fits the capacity", e), nil, fmt.Sprint(e))
+			key := "NoSpuriousError"
+			if seg > 0 && wrap != "plain" {
+				key = "StreamIntegrity:fragmented-carrier"
+			}
+			t.fail(-1, "property", true, key, fmt.Sprintf("receiver reported %v although every accepted message fits the capacity (carrier delivers at most %d bytes per Read; 0 = unlimited)", e, seg), nil, fmt.Sprint(e))
 			return
 		}
 		if len(gotC) < total {
